@@ -2,7 +2,7 @@
 # every seeded change against the check of the property it was written for (scratch worktrees /tmp/mut3/Cxx) -> seeded/own_matrix.txt
 cd /verif
 for p in 01 02 03 04 05 06 07 08 09 10 11 12 13 14 15 16 17 18 19 20; do
-  ( for i in 1 2 3 4 5 6 7 8; do
+  ( for i in 1 2 3 4 5 6 7 8 9 10; do
       [ -f seeded/C$p-$i/patch.diff ] || continue
       echo "C$p-$i $(python3 tools/mutrun.py /tmp/mut3/C$p /verif/seeded/C$p-$i/patch.diff C$p 2>&1 | cut -c1-200)"
     done > /tmp/mut3/own_C$p.txt 2>&1 ) &
